@@ -193,6 +193,26 @@ def run_case(cid: str, cls, m) -> List[str]:
                 return r.data
             lines.append(f"RT message_json_version_{ver_name} " + _trip(both))
         lines.append("RT message_copy " + _trip(lambda: Message.copy(Message(hdr(0), m)).data))
+        # the copy of a whole Message keeps the header too: same class, same bytes (both header classes)
+        for tc in (False, True):
+            def whole(tc=tc):
+                h = get_header_cls(tc)()
+                h.msg_type, h.num_data_bytes, h.src_mod_id, h.dest_mod_id = cls.type_id, ctypes.sizeof(cls), 11, 7
+                h.msg_count, h.send_time, h.version = 3, 0.25, cls.type_hash
+                if tc:
+                    h.utc_seconds, h.utc_fraction = 1700000000, 123456
+                src = Message(h, m)
+                hb = bytes(h)
+                c = Message.copy(src)
+                if type(c.header) is not type(h) or bytes(c.header) != hb:
+                    raise AssertionError("header of the copy differs")
+                if type(c.data) is not type(m):
+                    raise AssertionError("data class of the copy differs")
+                ctypes.memset(ctypes.addressof(c.header), 0xEE, ctypes.sizeof(c.header))
+                if bytes(h) != hb:
+                    raise AssertionError("copy shares the header")
+                return c.data
+            lines.append(f"RT message_copy_whole_{'timecode' if tc else 'plain'} " + _trip(whole))
         for ver in sorted({0, cls.type_hash, cls.type_hash ^ 1, 1, 0xFFFFFFFF, (cls.type_hash + 1) & 0xFFFFFFFF}):
             txt = Message(hdr(ver), m).to_json(minify=True)
             try:
